@@ -6,21 +6,27 @@ CLAIM = True
 MANIFEST_TEXT = ("Lean 4 theorems in three layers. (1) Over an arbitrary linearly ordered field, about the comparison formulas regenerated from float_cmp.cc on "
                  "every run: documented definitions of eq/ne/lt/gt/le/ge for the three styles, symmetry, ne = not eq, exactly one of lt/eq/gt for epsilon >= 0, "
                  "le = lt or eq, ge = gt or eq, vector eq = conjunction and the lexicographic trichotomy; round/trunc in the four rounding styles (distance < 1, "
-                 "nearest integer, ties within epsilon in the documented direction, floor/floor+1 and the snap rules, integers are fixed points, unsigned targets). (2) The functions the model "
+                 "nearest integer, ties within epsilon in the documented direction, floor/floor+1 and the snap rules, integers are fixed points, unsigned targets); the same algorithms with the integer "
+                 "target type explicit (roundM/truncM: every value stored in an I variable reduced as the type does, T(lower+1) after the integral promotions) are proved equal to them whenever nothing "
+                 "wraps around (every signed type; unsigned with val >= 0), and for an unsigned target with val in (-1,0), where lower-- turns 0 into the largest value M: trunc upward / toward zero "
+                 "returns 0 (every style, every epsilon for which val is not equal to -1 within epsilon), round returns 0 or M according to whether the nearest integer is 0 or -1. (2) The functions the model "
                  "driver actually executes on exact inputs (core Rat) are shown to be these generic functions at Q (rat_* theorems). (3) The comparison algebra "
                  "(symmetry, reflexivity, trichotomy, le/ge decomposition, vectors) is proved verbatim in the ROUNDING arithmetic FP f of every binary floating-point "
                  "format (fp_* theorems; all finite operands, overflow to infinity included; round/trunc fix integer-valued numbers of every magnitude). Over Int with a machine-width check on every intermediate: "
                  "power/factorial/binomial return the exact value iff it is representable (symmetry, Pascal), sign over every ordered ring, any/all classifiers. "
                  "The same model is run against the real code: over Q on float/double inputs whose C++ intermediates are exact (GMP re-checks that), over FP f "
-                 "bit for bit on arbitrary finite float/double/long double values incl. omitted (default) epsilons and every overload / FloatCmpOps member, over the "
-                 "8-bit format against the templates instantiated with a minifloat class (exhaustively in the thorough tier), integer helpers over every representable "
+                 "bit for bit on arbitrary finite float/double/long double values incl. omitted (default) epsilons and every overload / FloatCmpOps member, with the integer targets "
+                 "signed/unsigned char, short, int, long; over two 8-bit formats (4+3 and 5+2 exponent+mantissa bits) against the templates instantiated with a minifloat class "
+                 "(exhaustively in the thorough tier, round/trunc also with unsigned char / signed char / unsigned targets), integer helpers over every representable "
                  "argument pair above small cut-offs.")
 MANIFEST_NOTE = ("Trusted: Lean kernel (+propext/Classical.choice/Quot.sound), tr_c17.py, the hand-written round/trunc/integer models and the IEEE rounding model FP "
                  "(fidelity by differential execution against the hardware types and the harness minifloat), GMP as oracle, g++/ASan/UBSan, IEEE-754 conformance of "
                  "float/double/long double arithmetic of the test machine. The documented definitions and the round/trunc distance/direction laws are theorems of exact "
                  "arithmetic; for rounded arithmetic they are decided by the harness oracle up to one rounding per operation (three-valued), the algebraic laws are proved. "
-                 "Outside the checked domain: integer targets at the ends of their range (I(val)+-1 overflows), unsigned targets with val <= -1 (round) / "
-                 "val < 0 (trunc), NaN/infinite arguments, long double classifiers, narrow integer types. Integer-valued arguments of every magnitude are inside "
+                 "Outside the checked domain: integer targets at the ends of their range (I(val)+-1 overflows), unsigned targets with val <= -1 (I(val) is undefined), and for val in (-1,0) "
+                 "the cases whose documented result is the integer -1 (round to -1; trunc downward / toward infinity, or val equal to -1 within epsilon: printed `unrep` by harness and driver, "
+                 "not compared), NaN/infinite arguments, long double classifiers, long long. The wrap-around law trunc_unsigned_neg_up is proved in exact arithmetic; in rounded arithmetic it is "
+                 "pinned by the bit-exact model and judged by the three-valued oracle. Integer-valued arguments of every magnitude are inside "
                  "(round/trunc must return them unchanged, also where val+1 is not representable in T). The vector overloads of round/trunc in float_cmp.cc cannot "
                  "be instantiated (ambiguous partial specialisation, re-checked) and are not covered.")
 TECHNIQUE = ("Lean 4 proof over a generic ordered-field model and over an executable IEEE rounding model + translator for the comparison formulas and default epsilons + "
@@ -33,18 +39,20 @@ HARNESS = dict(
     flags=["-O0"],   # three floating types x four integer types x 12 style pairs of templates: -O1 triples the compile time
 )
 RULE = ("cases: cmp/cmpv (float,double x 3 styles; operand pairs placed on/next to the tolerance threshold, equal, opposite, zero; epsilons 0, <1, 1, >1), "
-        "round/trunc (4 rounding styles x int/long/unsigned targets; arguments at integers, halves, tie boundaries, distance epsilon from an integer, (-1,0] for unsigned round), "
+        "round/trunc (4 rounding styles x signed/unsigned char/short/int/long targets; arguments at integers, halves, tie boundaries, distance epsilon from an integer, (-1,0] for unsigned targets), "
         "fcmp/fcmpv/fround/ftrunc (the same on arbitrary finite float/double/long double values: random bit patterns, subnormals, extremes, partners nudged a few ulps around the "
-        "threshold the code computes, epsilon omitted / default / 0 / tiny / >= 1/2; std::vector sizes 0..9 incl. unequal, FieldVector sizes 1..6,8), minifloat mf/mfr/mfrow "
-        "(exhaustive tables), pow/fact/binom at the representability boundary and exhaustive enumerations, sign, classifiers with one non-finite component, compile-time overloads "
+        "threshold the code computes, epsilon omitted / default / 0 / tiny / >= 1/2; std::vector sizes 0..9 incl. unequal, FieldVector sizes 1..6,8), minifloat mf/mfr/mfrow/mfri "
+        "(exhaustive tables; mfri = round/trunc of both 8-bit formats to unsigned char / signed char / unsigned for every value in range and every epsilon), pow/fact/binom at the representability boundary and exhaustive enumerations, sign, classifiers with one non-finite component, compile-time overloads "
         "and documented defaults (static, defeps); distinct = distinct op lines; non-trivial = the oracle decided a law/definition on a call of the real code (skip/unrep lines, "
-        "documented-unsupported negative integer exponents and unsigned results standing for -1 are trivial)")
+        "documented-unsupported negative integer exponents and unsigned targets whose documented result is -1 are trivial)")
 ASSUMPTIONS = [
     "the formulas of eq/ne/lt/gt/le/ge and the default epsilons (float, double, long double, minifloat) are regenerated from float_cmp.cc by tools/translators/tr_c17.py; the style dispatch, vector loops, round/trunc and the integer helpers in lean/DuneVerif/Model/C17.lean are hand-written and tied by this differential run",
     "ops cmp/cmpv/round/trunc: operands are dyadic with few significant bits (f32: 12 bits in a 2^+-11 window, f64: 26 bits in a 2^+-26 window) so that every C++ intermediate is exact; the harness re-checks that with GMP; the model side is evaluated over the rationals",
     "ops fcmp/fcmpv/fround/ftrunc: arbitrary finite values; float/double/long double arithmetic of the machine is IEEE 754 round-to-nearest-even (binary32, binary64, x87 extended), which the Lean type FP f models; int<->float conversions round to nearest / truncate",
-    "the minifloat class is part of the harness (one rounding per operation, ties to even); it is modelled by the same FP f with f = (4 bits, emin -6, emax 7)",
-    "round/trunc: I(val), lower-1 and upper+1 stay inside the integer target type; unsigned targets: val >= 0 for trunc, val > -1 for round (the largest unsigned value then stands for -1)",
+    "the minifloat class template is part of the harness (one rounding per operation, ties to even); its two instances are modelled by the same FP f with f = (4 bits, emin -6, emax 7) and f = (3 bits, emin -14, emax 15); the default epsilon is used with the first only",
+    "round/trunc: I(val), lower-1 and upper+1 stay inside the integer target type (signed: |I(val)| <= max-2; unsigned: I(val) <= max-2); unsigned targets: val > -1; for val in (-1,0) lower-- wraps around to the largest value M of the type, which the model reproduces (IType.wrap; IType.arith for the promotion of narrow types in T(lower+1))",
+    "trunc to an unsigned type, val in (-1,0) not equal to 0 within epsilon: where the documented result is the integer -1 (direction downward / toward infinity, or val equal to -1 within epsilon, or - minifloat 4+3 only - T(M) is infinite) harness and driver print `unrep` instead of the value (same predicate, evaluated in the arithmetic of T on both sides); everywhere else the oracle requires 0",
+    "ops round/trunc (exact rationals) with an unsigned target and val in (-1,0): trunc only where T(M) - val is exact in T (unsigned char with float; unsigned char, unsigned short with double); the other combinations are exercised by ftrunc (bit-exact model) and mfri",
     "a non-integer value of T is below 2^(digits-1), so its neighbouring integers convert exactly; integer-valued arguments (all values from 2^(digits-1) on) must be returned unchanged by round and trunc",
     "power is run with |p| <= 4096",
     "the model describes the code after fixes/C17_binomial_overflow.patch, fixes/C17_round_unsigned.patch and fixes/C17_trunc_large.patch",
@@ -61,12 +69,15 @@ def batches(tier, seed):
         res.append(dict(args=["--kind", "mfall", "--from", str((seed * 7919) % 80000), "--cases", "1500", "--tier", tier], tag="mfrow", timeout=300))
         # a quarter of the exhaustive minifloat round/trunc table, rotating with the seed
         res.append(dict(args=["--kind", "mfrall", "--from", str((seed % 4) * 86400), "--cases", "86400", "--tier", tier], tag="mfr", timeout=300))
+        # an eighth of the exhaustive minifloat x integer-type table (all types and values for 16 of the 124 epsilons), rotating with the seed
+        res.append(dict(args=["--kind", "mfriall", "--from", str((seed % 8) * 16 * 8160), "--cases", str(16 * 8160), "--tier", tier], tag="mfri", timeout=300))
         res.append(dict(args=["--kind", "rt", "--seed", str(seed * 1000 + 500), "--cases", "4000", "--tier", tier], tag="rt", timeout=300))
     else:
         n, parts = 600000, 8
         res.append(dict(args=["--kind", "intall", "--cases", "0", "--tier", tier], tag="int", timeout=1800))
         res.append(dict(args=["--kind", "mfall", "--cases", "0", "--tier", tier], tag="mfrow", timeout=3000))
         res.append(dict(args=["--kind", "mfrall", "--cases", "0", "--tier", tier], tag="mfr", timeout=3000))
+        res.append(dict(args=["--kind", "mfriall", "--cases", "0", "--tier", tier], tag="mfri", timeout=3000))
         for k in ("rt", "cmp"):
             res.append(dict(args=["--kind", k, "--seed", str(seed * 1000 + 600), "--cases", "100000", "--tier", tier], tag=k, timeout=3000))
     for i in range(parts):
@@ -78,7 +89,8 @@ def batches(tier, seed):
 def search_batches(seed):
     """after a broken correspondence / obligation: focused streams first (round/trunc near ties with caller-supplied and default
     epsilons in all formats, comparisons on the tolerance threshold, integer helpers at the representability boundary), then the mix"""
-    res = [dict(args=["--kind", "mfrall", "--cases", "0", "--tier", "thorough"], timeout=900)]
+    res = [dict(args=["--kind", "mfrall", "--cases", "0", "--tier", "thorough"], timeout=900),
+           dict(args=["--kind", "mfriall", "--cases", "0", "--tier", "thorough"], timeout=900)]
     for i, k in enumerate(("rt", "cmp", "int", "cls")):
         res.append(dict(args=["--kind", k, "--seed", str(seed * 7919 + 13 + i), "--cases", "40000"], timeout=900))
     res.append(dict(args=["--kind", "intall", "--cases", "0", "--tier", "thorough"], timeout=900))
